@@ -280,6 +280,17 @@ def enum_broadcast():
 
 def enum_where_dtypes(dts):
     import pytato as pt
+    # three operands: promotion is not associative (int8, uint16, float32)
+    # (all thirteen dtypes in both tiers: 2 x 2197 cheap calls)
+    for d1, d2, d3 in itertools.product(ALL_DT, ALL_DT, ALL_DT):
+        for fn in ("stack", "concatenate"):
+            yield (f"{fn}({d1}, {d2}, {d3})",
+                   f"{fn}|dtype3|{_k(d1)}{_k(d2)}{_k(d3)}", True,
+                   lambda d1=d1, d2=d2, d3=d3, fn=fn: getattr(np, fn)(
+                       [_ones((2,), d1), _ones((2,), d2), _ones((2,), d3)]),
+                   lambda d1=d1, d2=d2, d3=d3, fn=fn: getattr(pt, fn)(
+                       [_ph("a", (2,), d1), _ph("b", (2,), d2),
+                        _ph("c", (2,), d3)]))
     for d1, d2 in itertools.product(dts, dts):
         yield (f"where(bool, {d1}, {d2})", f"where|aa|{_k(d1)}{_k(d2)}", True,
                lambda d1=d1, d2=d2: np.where(_ones((3,), "bool"),
